@@ -38,6 +38,17 @@ Theorem C02_commit_supply_delta_formula :
 Proof. exact commit_supply_formula. Qed.
 Print Assumptions C02_commit_supply_delta_formula.
 
+(** The flush every stateful precompile performs before it touches the Cosmos side: after a successful
+    commit the bank agrees with the cache on every dirty, live account.  This is what makes the
+    "mirror" discipline necessary and sufficient: from here on, a bank change to a cached account that
+    is not mirrored into the cache by exactly the same amount is overwritten by the next commit. *)
+Theorem C02_commit_syncs_bank_with_cache_on_dirty_accounts :
+  forall order W D W' D', NoDup order -> commit_list W D order = (W', D', true) ->
+    forall a o, a ∈ order -> is_Some (dirties D !! a) -> objs D !! a = Some o -> osui o = false ->
+      zg (bank W') a = obal o.
+Proof. exact commit_syncs_dirty. Qed.
+Print Assumptions C02_commit_syncs_bank_with_cache_on_dirty_accounts.
+
 (** Every pure EVM transaction without SELFDESTRUCT — any call tree of value transfers between any of the
     accounts, storage writes, logs, reverts at any place with catching or propagating
     callers, any amounts — leaves the total supply of the native coin unchanged.  This
